@@ -88,6 +88,9 @@ theorem good_snoc {L : Trace → Ev → List Out → Prop} {t : Trace} {e : Ev} 
 @[simp] theorem outcomes_drop (r : Nat) (k : Option Nat) (v : Nat) : outcomes r [.drop k v] = 0 := by
   simp [outcomes, Out.isOutcome]
 
+@[simp] theorem outcomes_sendErr (r : Nat) : outcomes r [.sendErr] = 0 := by
+  simp [outcomes, Out.isOutcome]
+
 @[simp] theorem outcomes_deliver (r r' : Nat) (k : Option Nat) (v : Nat) :
     outcomes r [.deliver r' k v] = if r' = r then 1 else 0 := by
   by_cases h : r' = r <;> simp [outcomes, Out.isOutcome, h]
